@@ -9,7 +9,7 @@ def run(rep):
     enginep.engine_deductive(rep, enginep.DB_FUNS)
     q = rep.tier == 'quick'
     own = [r for r in rep.obligations if '.ownership.' in r['name']]
-    fw.standin(rep, 's_dbx.py', ['run', rep.seed, 3000 if q else 12000],
+    fw.standin(rep, 's_dbx.py', ['run', rep.seed, 6000 if q else 24000],
                'systematic small-scope database histories: repeated-variable and all-unbound patterns, non-ground facts, retract resumed after other operations',
                'e/2 over {a,b}: 5 databases x 7 patterns x {retract, plain enumeration} suspended x 26 inner operations + random histories')
     rep.notes.append('%d ownership obligations (every in-place list mutation in the database functions targets an unpublished list); '
